@@ -15,6 +15,7 @@
 package certmagic
 
 import (
+	"bytes"
 	"context"
 	"crypto/x509"
 	"encoding/json"
@@ -942,6 +943,24 @@ func (cfg *Config) moveCompromisedPrivateKey(ctx context.Context, cert Certifica
 		zap.String("storage_path", compromisedPrivKeyStorageKey),
 		zap.Strings("identifiers", cert.Names),
 		zap.String("issuer", cert.issuerKey))
+
+	// if keys are reused, the same key may also be stored with another configured
+	// issuer; it is just as compromised there, and leaving it in place would let
+	// that issuer's certificate, with the same key, be picked up as the replacement
+	for _, issuer := range cfg.Issuers {
+		otherStorageKey := StorageKeys.SitePrivateKey(issuer.IssuerKey(), cert.Names[0])
+		if otherStorageKey == privKeyStorageKey {
+			continue
+		}
+		otherPEM, err := cfg.Storage.Load(ctx, otherStorageKey)
+		if err != nil || !bytes.Equal(otherPEM, privKeyPEM) {
+			continue
+		}
+		cfg.Storage.Store(ctx, otherStorageKey+".compromised", otherPEM)
+		if err = cfg.Storage.Delete(ctx, otherStorageKey); err != nil {
+			return err
+		}
+	}
 
 	return nil
 }
